@@ -100,7 +100,7 @@ def binpath(name, binary):
 
 
 class Job:
-    def __init__(self, label, argv, env=None, timeout=900, cwd=None, kind="native", build=None, crash="inconclusive"):
+    def __init__(self, label, argv, env=None, timeout=900, cwd=None, kind="native", build=None, crash="inconclusive", abort_ok=False):
         self.label = label
         self.argv = argv
         self.env = env or {}
@@ -109,6 +109,7 @@ class Job:
         self.kind = kind  # native | asan | tsan | miri | valgrind
         self.build = build
         self.crash = crash  # what a dead shard means: "violation" or "inconclusive"
+        self.abort_ok = abort_ok  # an allocation-failure abort (SIGABRT from handle_alloc_error) is an accepted outcome
         # results
         self.rc = None
         self.out = ""
@@ -215,6 +216,15 @@ class Agg:
                     self.notes.append(line[5:])
             elif line.strip() == "DONE":
                 done = True
+        if j.abort_ok and j.rc == -6 and "memory allocation of" in j.err:
+            # abort-class request: the allocator refused and the process aborted -- an accepted outcome
+            self.add_counter("alloc_failure_aborts", 1)
+            self.add_counter("histories", 1)
+            self.done += 1
+            self.cells.add("single|" + j.label.replace(":", "|") + "|abort")
+            if len(self.samples) < 8:
+                self.samples.append(f"{j.label}: {j.err.strip().splitlines()[0][:120]} -> SIGABRT (accepted)")
+            return
         if done:
             self.done += 1
         self.sanitizer_reports(j)
